@@ -215,9 +215,9 @@ def build(tier, rng):
     g = G(
         "export-import",
         "CryptContext.to_dict / to_string / from_string / copy / update({}) / load(update=True)",
-        ("1500" if not thorough else "15000") + " generated configurations (as in C04: orders, default, deprecated, categories, string-typed numbers, percent / float vary_rounds, 'all' scheme) x {CryptContext(**to_dict()), to_dict(resolve=True), from_string(to_string()), to_string(section=...), copy(), update() / update({}) / load({}, update=True)}: equal to_dict (INI: modulo the type of uninterpreted options), equal to_string, equal decisions; to_dict equals the normalised input",
+        ("1500" if not thorough else "10000") + " generated configurations (as in C04: orders, default, deprecated, categories, string-typed numbers, percent / float vary_rounds, 'all' scheme) x {CryptContext(**to_dict()), to_dict(resolve=True), from_string(to_string()), to_string(section=...), copy(), update() / update({}) / load({}, update=True)}: equal to_dict (INI: modulo the type of uninterpreted options), equal to_string, equal decisions; to_dict equals the normalised input",
     )
-    n_cfg = 1500 if not thorough else 15000
+    n_cfg = 1500 if not thorough else 10000
     for _ in range(n_cfg):
         with guarded(g, "export-import"):
             cfg, status = c04.gen_config(rng, facts, want_invalid=0)
@@ -288,9 +288,9 @@ def build(tier, rng):
     g = G(
         "update-sequences",
         "CryptContext.update / load(update=True) / copy(**kwds)",
-        ("300" if not thorough else "3000") + " generated configurations x sequences of 4 operations out of {update(**delta), update(dict), load(dict, update=True), copy(**delta), export+import as dict / INI, copy()} with deltas taken from a second generated configuration over the same schemes: exported configuration = previous overlaid with exactly the given keys; decisions = those of a context built directly from that dictionary; a refused delta leaves everything unchanged",
+        ("300" if not thorough else "2000") + " generated configurations x sequences of 4 operations out of {update(**delta), update(dict), load(dict, update=True), copy(**delta), export+import as dict / INI, copy()} with deltas taken from a second generated configuration over the same schemes: exported configuration = previous overlaid with exactly the given keys; decisions = those of a context built directly from that dictionary; a refused delta leaves everything unchanged",
     )
-    n_seq = 300 if not thorough else 3000
+    n_seq = 300 if not thorough else 2000
     for _ in range(n_seq):
         with guarded(g, "update-sequences"):
             cfg, status = c04.gen_config(rng, facts, want_invalid=0)
@@ -339,23 +339,23 @@ def build(tier, rng):
                     same_state(g, "sequence:decisions", "updated context decides differently from one built from the merged configuration", state(ref[1], hs), state(target, hs), wit)
                 if op != "copy-kw":
                     model = want
-                cfg = cfg if op == "copy-kw" else cfg  # probe set keeps growing through hs above
     groups.append(g)
 
     # =============================================================================================
     g = G(
         "failed-change",
         "CryptContext.load (build new _CryptConfig, then swap)",
-        ("40" if not thorough else "400") + " generated configurations x every kind of invalid change (unknown scheme at every list position, duplicate scheme, unknown / forbidden / unsupported option on the scheme at every position and per category, unknown context key, default not configured, deprecated default, all deprecated, unknown deprecated, auto + names, vary_rounds <0 / >1 / unparsable, min above max, default outside window, unparsable / mistyped numbers, mistyped schemes / default / deprecated, malformed keys) x offending item first / middle / last among harmless changes x {update(**kw), update(dict), load(dict, update=True), load(full dict), load(full INI), copy(**kw)}: whenever the call raises, to_dict / to_string / decisions are those from before",
+        ("40" if not thorough else "200") + " generated configurations x every kind of invalid change (unknown scheme at every list position, duplicate scheme, unknown / forbidden / unsupported option on the scheme at every position and per category, unknown context key, default not configured, deprecated default, all deprecated, unknown deprecated, auto + names, vary_rounds <0 / >1 / unparsable, min above max, default outside window, unparsable / mistyped numbers, mistyped schemes / default / deprecated, malformed keys) x offending item first / middle / last among harmless changes x {update(**kw), update(dict), load(dict, update=True), load(full dict), load(full INI), copy(**kw)}: whenever the call raises, to_dict / to_string / decisions are those from before",
     )
     kinds_failed, kinds_accepted = set(), set()
-    n_bad = 40 if not thorough else 400
+    n_bad = 40 if not thorough else 200
     for _ in range(n_bad):
         with guarded(g, "failed-change"):
             cfg, status = c04.gen_config(rng, facts, want_invalid=0)
             if status != "valid":
                 continue
             kw = P.to_kwds(cfg)
+            kwr = repr(kw)
             ctx = CryptContext(**kw)
             hs = hashes_for(cfg)
             before = state(ctx, hs)
@@ -384,7 +384,7 @@ def build(tier, rng):
                         if not thorough and rng.random() < 0.5:
                             continue
                         o = outcome(fn)
-                        g.case((repr(kw), kind, pos, way))
+                        g.case((kwr, kind, pos, way))
                         base_kind = kind.split("@")[0]
                         if o[0] == "exc":
                             kinds_failed.add(base_kind)
@@ -456,8 +456,9 @@ def build(tier, rng):
                 continue
             hs = hashes_for(cfg, [boom_hash, plain_hash])
             before = state(ctx, hs)
-            wit = {"kwds": repr(kw)}
-            g.case(("custom-roundtrip", repr(kw)))
+            kwr = repr(kw)
+            wit = {"kwds": kwr}
+            g.case(("custom-roundtrip", kwr))
             g.check(ctx.identify(boom_hash) == "boom_hash", "custom:identify", "custom hasher's hash not attributed to it", wit)
             for name, fn in (("dict-resolved", lambda: CryptContext(**ctx.to_dict(resolve=True))), ("copy", lambda: ctx.copy()), ("load-context", lambda: _loaded(CryptContext, ctx))):
                 o = outcome(fn)
@@ -492,7 +493,7 @@ def build(tier, rng):
                         Fuse.left, Fuse.exc = k, exc
                         o = outcome(op, victim)
                         Fuse.left = None
-                        g.case((repr(kw), opname, exc.__name__, k))
+                        g.case((kwr, opname, exc.__name__, k))
                         w2 = dict(wit, op=opname, raises=exc.__name__, at_call=k, of=n_calls, outcome=repr(o)[:160])
                         if k <= n_calls:
                             g.check(o[0] == "exc", "raising-hasher:error-swallowed", "the hasher's exception did not surface", w2)
